@@ -45,6 +45,9 @@ def gen_for(U, seed, frac, want_forms=None):
                 elif bound and sel['form'] == 'end' and not sel.get('extra') and (i + j) % 2 == 0:
                     # posoargs(end=<the parameter receiving the instance>): nothing is left to convert at the bound level
                     sel = dict(sel, s='self')
+                elif bound and sel['form'] == 'end' and sel.get('extra'):
+                    # posoargs('self', <name>, end=...): the explicit names include the parameter receiving the instance
+                    sel = dict(sel, extra=['self'] + [n for n in sel['extra'] if n != 'self'])
                 elif bound and sel.get('po') and sel['form'] in ('names_over_start', 'names_over_end', 'start_over_names', 'end_over_names'):
                     sel = dict(sel, po=['self'] + [n for n in sel['po'] if n != 'self'])
                 take = rnd.random() < frac
@@ -52,6 +55,21 @@ def gen_for(U, seed, frac, want_forms=None):
                     yield modif.modif_event('mod/%d-%d' % (i, j), ps, bound, **sel)
                 if take:
                     k += 1
+    return gen
+
+
+def self_named_gen():
+    """plain FUNCTIONS one of whose parameters is spelled 'self' (any name is a legal parameter name): converted and called by that name"""
+    P = lambda n, d=False: {'n': n, 'k': 'pok', 'd': d, 'dv': 0, 'an': 0}    # noqa
+    cases = [([P('a'), P('self')], dict(form='names', kwo=['self'])), ([P('a'), P('self', True)], dict(form='names', kwo=['self'])),
+             ([P('self'), P('a')], dict(form='names', kwo=['a'])), ([P('self'), P('a')], dict(form='names', po=['self'])),
+             ([P('a'), P('self', True)], dict(form='auto', exc=[])), ([P('a'), P('self')], dict(form='start', s='self', extra=[])),
+             ([P('a'), P('self'), {'n': 'kwargs', 'k': 'vkw', 'd': False, 'dv': 0, 'an': 0}], dict(form='names', kwo=['self']))]
+
+    def gen(shard, nshards):
+        for k, (ps, sel) in enumerate(cases):
+            if k % nshards == shard:
+                yield modif.modif_event('selfname/%d' % k, ps, False, **sel)
     return gen
 
 
@@ -66,7 +84,7 @@ def run(check, tier, seed, scratch):
         model(check, scratch, 'abc', 3, 2, 'Modifiers(names abc, <=3 named, selections <=2)')
     U2 = tlc.export_universe(scratch, 'ab', ['args'], ['kwargs'], 2)
     U3 = tlc.export_universe(scratch, 'abc', ['args'], ['kwargs'], 3)
-    gens = [gen_for(U2, seed, 1.0), gen_for(U3, seed + 1, 0.04 if quick else 1.0)]
+    gens = [gen_for(U2, seed, 1.0), gen_for(U3, seed + 1, 0.04 if quick else 1.0), self_named_gen()]
     if not quick:
         U4 = tlc.export_universe(scratch, 'abcd', ['args'], ['kwargs'], 4)
         gens.append(gen_for(U4, seed + 2, 0.01))
